@@ -98,6 +98,17 @@ def check_codec(version: str, f: tuple) -> list:
             bad("terminator", f"re-encoded form {again!r} is not exactly one newline-terminated line")
     except Exception as exc:  # noqa: BLE001
         bad(f"decode-raised:{type(exc).__name__}", f"decoding {want!r} raised {exc}")
+    # (e) a decoded message is a message like any other: change a field, encode, decode
+    try:
+        m = sch.load(want)
+        m.payload = f[5] + "x"
+        m.node_id = (f[0] + 1) % 256
+        g = (m.node_id, f[1], f[2], f[3], f[4], m.payload)
+        line2 = sch.dump(m)
+        if line2 != R.enc(*g):
+            bad("decoded-then-modified-encodes-stale", f"decoded {want!r}, set node_id={m.node_id} payload={m.payload!r}, encoded as {line2!r}, expected {R.enc(*g)!r}")
+    except Exception as exc:  # noqa: BLE001
+        bad(f"modify-raised:{type(exc).__name__}", f"decode/modify/encode of {want!r} raised {exc}")
     return viols
 
 
